@@ -59,7 +59,7 @@ Proof. apply (@prim_iter_greedy _ (kops_of F32 meth) p (@f32_trans meth) (@f32_i
    the returned dendrogram are the threshold components, for every non-NaN
    threshold ---- *)
 Require Import KV.Model.Linkage KV.Proofs.SortProofs KV.Proofs.RelabelWF KV.Proofs.PrimThreshold KV.Proofs.MstPrim
-  KV.Proofs.MstCuts KV.Proofs.SubCarrier.
+  KV.Proofs.MstCuts KV.Proofs.SubCarrier KV.Proofs.SpanningTrees KV.Proofs.MstWeights.
 From Flocq Require Import IEEE754.PrimFloat.
 
 Definition ok64 (x : PrimFloat.float) : bool := negb (PrimFloat.is_nan x).
@@ -243,4 +243,42 @@ Proof.
     destruct (Bltb_true_not_nan _ _ _ _ Hv) as [-> _]. reflexivity.
   - exact Hmax.
   - unfold ok32. rewrite Ht. reflexivity.
+Qed.
+
+(* ---- C04, second sentence on the two float carriers: for EVERY finite input (ties, any
+   magnitude, f64::MAX / f32::MAX included) and each of the five entry points, the returned
+   heights are - up to order, bit for bit - the edge weights of a spanning tree of the
+   complete graph on the observations which has, at every threshold t (NaN included, where
+   the claim is trivial), at least as many edges of weight <= t as any other spanning tree ---- *)
+Theorem mst_weights_f64 (p : profile) (a : algo) s d (m : list PrimFloat.float) (n : N) s' d' m' M0 :
+  run_with F64 p a Single s d m n = Ok (s', d', m') ->
+  prologue p m n = Ok M0 -> 1 <= m_obs M0 ->
+  Forall (fun v => PrimFloat.ltb v (f_inf F64) = true) m ->
+  mst_weights PrimFloat.ltb (dcell (kops_of F64 Single) M0) (m_obs M0) (heights d').
+Proof.
+  intros Hrun HM0 Hn1 Hfin.
+  apply (@mst_weights_carrier _ F64 ok64 eq_refl eq_refl f64_ltb_irrefl f64_ltb_trans
+           ltac:(intros x y z Hx Hy Hz; apply f64_ltb_negtrans; unfold ok64 in *;
+                 [destruct (PrimFloat.is_nan x)|destruct (PrimFloat.is_nan y)|destruct (PrimFloat.is_nan z)]; (reflexivity || discriminate))
+           f64_eqb_not_lt f64_eqb_refl_ok p a s d m n s' d' m' M0 Hrun HM0 Hn1).
+  - eapply Forall_impl; [|exact Hfin]. intros v Hv. apply lt_inf_ok64. exact Hv.
+  - exact Hfin.
+  - intros t Ht v. unfold ok64 in Ht. apply negb_false_iff in Ht. cbn [F64 f_ltb].
+    rewrite ltb_equiv. rewrite is_nan_equiv in Ht. apply Bltb_nan_l. exact Ht.
+Qed.
+
+Theorem mst_weights_f32 (p : profile) (a : algo) s d (m : list f32) (n : N) s' d' m' M0 :
+  run_with F32 p a Single s d m n = Ok (s', d', m') ->
+  prologue p m n = Ok M0 -> 1 <= m_obs M0 ->
+  Forall (fun v => Bltb v (f_inf F32) = true) m ->
+  mst_weights (@Bltb 24 128) (dcell (kops_of F32 Single) M0) (m_obs M0) (heights d').
+Proof.
+  intros Hrun HM0 Hn1 Hfin.
+  apply (@mst_weights_carrier _ F32 ok32 eq_refl eq_refl (@Bltb_irrefl 24 128) (@Bltb_trans 24 128)
+           ltac:(intros x y z Hx Hy Hz; apply (@Bltb_negtrans 24 128); unfold ok32 in *;
+                 [destruct (BinarySingleNaN.is_nan x)|destruct (BinarySingleNaN.is_nan y)|destruct (BinarySingleNaN.is_nan z)]; (reflexivity || discriminate))
+           (@Beqb_not_lt 24 128) f32_eqb_refl_ok p a s d m n s' d' m' M0 Hrun HM0 Hn1).
+  - eapply Forall_impl; [|exact Hfin]. intros v Hv. apply lt_inf_ok32. exact Hv.
+  - exact Hfin.
+  - intros t Ht v. unfold ok32 in Ht. apply negb_false_iff in Ht. cbn [F32 f_ltb]. apply Bltb_nan_l. exact Ht.
 Qed.
